@@ -638,7 +638,11 @@ pub fn run(ctx: &mut Ctx) {
                 check_one(ctx, cfg, mc, true, true);
             }
             // other spellings of the same front-matter entry (one per case, rotating)
-            let style = 1 + (k % 4) as u8;
+            let mut style = 1 + (k % 4) as u8;
+            // a block-style YAML value (several lines) cannot be written inside a flow mapping
+            if style == 2 && mc.yaml.as_ref().is_some_and(|y| y.contains('\n')) {
+                style = 1;
+            }
             if style == 4 {
                 let t = mc.text.as_str();
                 let plain_line = !t.is_empty() && t.trim() == t && !t.contains(['\n', '\r', '#']) && !t.starts_with(['-', '?', ':', '[', '{', '>', '|', '&', '*', '!', '%', '@', '`', '"', '\'']) && !t.contains(": ");
